@@ -1,6 +1,7 @@
-(* C18, PART W: binary64 witnesses (vm_compute on the PrimFloat instance FOps []) for the model of
-   aotools/turbulence/profile_compression.py::equivalent_layers.  The statements are about the model
-   executed at binary64; no real-number reasoning here. *)
+(* C18, PART W: binary64 regression witnesses (vm_compute on the PrimFloat instance FOps []) for the model of
+   the REPAIRED aotools/turbulence/profile_compression.py::equivalent_layers (slab edges
+   h.min() + hstep * arange(L)).  The statements are about the model executed at binary64; the inputs are those
+   for which the previous arange(hmin, hmax, hstep) edges dropped the top layer. *)
 From Coq Require Import ZArith Bool Uint63 PrimFloat FloatOps List.
 Require Import AOV.base.Num AOV.base.FloatFun AOV.base.NumF AOV.model.Compress AOV.proofs.C18_proofs.
 Import ListNotations.
@@ -19,36 +20,47 @@ Definition el_total_strength (N L : nat) : float :=
 Lemma lin200_ends : hd 0 (lin 200) = 0 /\ last (lin 200) 0 = 15000 /\ length (lin 200) = 200%nat.
 Proof. vm_compute. repeat split. Qed.
 
-(* W1 : 200 unit layers on linspace(0, 15000, 200), L = 7 : the top layer is dropped, 199 of 200 survive *)
-Theorem el_drops_top_layer_200_7 : el_total_strength 200 7 = 199.
-Proof. vm_compute. reflexivity. Qed.
-Corollary el_drops_top_layer_200_7_eqb :
-  PrimFloat.eqb (el_total_strength 200 7) 199 = true /\ PrimFloat.eqb (el_total_strength 200 7) 200 = false /\
-  fclose 0x1p-40 1 (el_total_strength 200 7) 200 = false.
-Proof. vm_compute. repeat split. Qed.
+(* generic-carrier fact at binary64: whatever the float list h (NaNs, infinities, unsorted, ...), no slab index
+   exceeds L, because digitize counts a subset of exactly L edges *)
+Theorem el_ix_le_L_float (h : list float) (L : nat) : Forall (fun i => (i <= L)%nat) (el_ix FO h L).
+Proof. apply el_ix_le_L. Qed.
 
-(* the mechanism: arange(hmin, hmax, hstep) produces L+1 = 8 edges, the last one 14999.999999999998 <= hmax,
-   so the highest layer gets slab index L+1 = 8, which no slab 1..7 collects *)
+(* W1 : 200 unit layers on linspace(0, 15000, 200), L = 7 : all 200 survive (previously 199) *)
+Theorem el_keeps_top_layer_200_7 : el_total_strength 200 7 = 200.
+Proof. vm_compute. reflexivity. Qed.
+Corollary el_keeps_top_layer_200_7_eqb :
+  PrimFloat.eqb (el_total_strength 200 7) 200 = true /\ fclose 0x1p-40 1 (el_total_strength 200 7) 200 = true.
+Proof. vm_compute. repeat split. Qed.
+Theorem el_keeps_top_layer_151_7 : el_total_strength 151 7 = 151.
+Proof. vm_compute. reflexivity. Qed.
+
+(* the mechanism: exactly L = 7 edges, the first one 0 = h.min(); the highest layer gets slab index 7 = L and
+   every index is within 1..7 *)
 Theorem el_top_layer_index_200_7 :
-  length (el_bins FO (lin 200) 7) = 8%nat /\
-  last (el_bins FO (lin 200) 7) 0 = 14999.999999999998 /\
-  last (el_ix FO (lin 200) 7) 0%nat = 8%nat /\
-  filter (fun i => negb (Nat.leb 1 i && Nat.leb i 7)) (el_ix FO (lin 200) 7) = [8%nat].
+  length (el_bins FO (lin 200) 7) = 7%nat /\
+  hd 1 (el_bins FO (lin 200) 7) = 0 /\
+  last (el_ix FO (lin 200) 7) 0%nat = 7%nat /\
+  filter (fun i => negb (Nat.leb 1 i && Nat.leb i 7)) (el_ix FO (lin 200) 7) = [].
+Proof. vm_compute. repeat split. Qed.
+Theorem el_top_layer_index_151_7 :
+  last (el_ix FO (lin 151) 7) 0%nat = 7%nat /\
+  filter (fun i => negb (Nat.leb 1 i && Nat.leb i 7)) (el_ix FO (lin 151) 7) = [].
 Proof. vm_compute. repeat split. Qed.
 
 (* the slab strengths themselves *)
 Theorem el_strengths_200_7 :
-  map ent1 (equivalent_layers FO (lin 200) (ones 200) (ones 200) 7) = [29; 28; 29; 28; 29; 28; 28].
+  map ent1 (equivalent_layers FO (lin 200) (ones 200) (ones 200) 7) = [29; 28; 29; 28; 29; 28; 29].
 Proof. vm_compute. reflexivity. Qed.
 
-(* other (N, L) of the family: N = 151, L = 7 also loses a layer; L = 9, 11, 13 and N = 100 do not *)
-Theorem el_drops_top_layer_151_7 : el_total_strength 151 7 = 150.
-Proof. vm_compute. reflexivity. Qed.
+(* the whole (N, L) family conserves the total *)
 Theorem el_conserved_cases :
   map (fun NL => el_total_strength (fst NL) (snd NL))
-      [(200, 9); (200, 11); (200, 13); (100, 7); (100, 9); (100, 11); (100, 13); (151, 9); (151, 11); (151, 13)]%nat
-  = [200; 200; 200; 100; 100; 100; 100; 151; 151; 151].
+      [(200, 7); (151, 7);
+       (200, 9); (200, 11); (200, 13); (100, 7); (100, 9); (100, 11); (100, 13); (151, 9); (151, 11); (151, 13)]%nat
+  = [200; 151; 200; 200; 200; 100; 100; 100; 100; 151; 151; 151].
 Proof. vm_compute. reflexivity. Qed.
 
-Print Assumptions el_drops_top_layer_200_7.
+Print Assumptions el_ix_le_L_float.
+Print Assumptions el_keeps_top_layer_200_7.
 Print Assumptions el_top_layer_index_200_7.
+Print Assumptions el_conserved_cases.
